@@ -6,6 +6,7 @@ import ast
 from sa import astutil as A
 from sa import cfg as C
 from sa import dataflow as D
+from sa import surface as S
 from sa.index import AnalysisError
 
 PROP = 'C15'
@@ -20,7 +21,7 @@ EXPLANATION = (
     'every recover override advances both counters; (d) the seed is tested '
     'with `is None` on the setup and the replay path alike.  Equality of '
     'recovered and uninterrupted state at every crash point is not decided.')
-FLOORS = {'C15.a': 1, 'C15.b': 3, 'C15.c': 1, 'C15.d': 1}
+FLOORS = {'C15.a': 1, 'C15.b': 3, 'C15.c': 1, 'C15.d': 1, 'C15.z': 2}
 FILES = ['pyglove/core/geno/dna_generator.py', 'pyglove/core/geno/sweeping.py',
          'pyglove/core/geno/random.py', 'pyglove/core/geno/deduping.py',
          'pyglove/ext/evolution/base.py', 'pyglove/ext/evolution/regularized_evolution.py',
@@ -234,4 +235,5 @@ def run(ctx):
   rule_b(ctx)
   rule_c(ctx)
   rule_d(ctx)
+  S.optional_truthiness_obligations(ctx, 'C15.z', ['pyglove/core/geno/dna_generator.py', 'pyglove/core/geno/random.py', 'pyglove/core/geno/sweeping.py', 'pyglove/core/geno/deduping.py', 'pyglove/ext/evolution/base.py'], 'seed 0 is a seed, reward 0.0 is a reward')
   ctx.assume('equality of recovered and uninterrupted state at every crash point is not decided')
